@@ -608,4 +608,124 @@ theorem gen_indexHeaderParse (bs : Bytes) :
     | _ => rfl
   | _ => rfl
 
+/-! ### the head of `Layout::parse` -/
+
+/-- the statements of `Layout.decode` before the properties are split into common part and variants -/
+def layoutHead (bs : Bytes) : Outcome (Nat × Bool × Nat × Nat × List RawProp) :=
+  (takeLE bs 4).bind fun a => (takeLE a.2 1).bind fun b => (takeLE b.2 2).bind fun c => (takeLE c.2 1).bind fun d =>
+    (rawLayoutDecode d.2).bind fun raw => .ok (a.1, decide (b.1 % 2 = 1), c.1, d.1, raw)
+
+/-- **The head of `Layout::parse` is the head of the model's `Layout.decode`**: entry count (4 bytes), the flag
+    byte whose lowest bit says whether every entry carries its own CRC, the entry size (2 bytes), the variant
+    count, then the property list by the (translated) `RawLayout::parse` — translated on every run from the
+    statements that precede the splitting into common part and variants. -/
+theorem gen_layoutParseHead (bs : Bytes) :
+    ((Generated.layoutParseHead bs).map' (fun r => (r.1.1, r.1.2.1, r.1.2.2.1, r.1.2.2.2.1, r.1.2.2.2.2))).Same
+      ((layoutHead bs).map' (fun h => (h.1, h.2.1, h.2.2.1, h.2.2.2.1, h.2.2.2.2.map RawProp.toSrcRaw))) := by
+  unfold Generated.layoutParseHead layoutHead
+  cases h1 : takeLE bs 4 with
+  | ok a =>
+    simp only [Outcome.bind_ok]
+    cases h2 : takeLE a.2 1 with
+    | ok b =>
+      simp only [Outcome.bind_ok]
+      cases h3 : takeLE b.2 2 with
+      | ok c =>
+        simp only [Outcome.bind_ok]
+        cases h4 : takeLE c.2 1 with
+        | ok d =>
+          simp only [Outcome.bind_ok]
+          have hflag : decide ((b.1 &&& 1) ≠ 0) = decide (b.1 % 2 = 1) := by
+            rw [Nat.and_one_is_mod]
+            rcases Nat.mod_two_eq_zero_or_one b.1 with h | h <;> simp [h]
+          rcases Outcome.same_cases _ _ (gen_rawLayoutParse d.2) with ⟨v, e1, e2⟩ | ⟨e, e1, e2⟩ | ⟨s, t, e1, e2⟩ | ⟨e1, e2⟩ | ⟨e1, e2⟩
+          · cases hp : Generated.rawLayoutParse d.2 with
+            | ok x =>
+              cases hq : rawLayoutDecode d.2 with
+              | ok raw =>
+                rw [hp] at e1; rw [hq] at e2
+                simp only [Outcome.map'_ok, Outcome.ok.injEq] at e1 e2
+                simp only [Outcome.bind_ok, Outcome.map'_ok, hflag]
+                rw [e1, e2]
+                exact Outcome.same_refl _
+              | _ => rw [hq] at e2; simp [Outcome.map'] at e2
+            | _ => rw [hp] at e1; simp [Outcome.map'] at e1
+          · cases hp : Generated.rawLayoutParse d.2 with
+            | err k1 =>
+              cases hq : rawLayoutDecode d.2 with
+              | err k2 =>
+                rw [hp] at e1; rw [hq] at e2
+                simp only [Outcome.map'_err, Outcome.err.injEq] at e1 e2
+                subst e1 e2
+                exact Outcome.same_refl _
+              | _ => rw [hq] at e2; simp [Outcome.map'] at e2
+            | _ => rw [hp] at e1; simp [Outcome.map'] at e1
+          · cases hp : Generated.rawLayoutParse d.2 with
+            | panic s1 =>
+              cases hq : rawLayoutDecode d.2 with
+              | panic s2 => exact Outcome.same_panic _ _
+              | _ => rw [hq] at e2; simp [Outcome.map'] at e2
+            | _ => rw [hp] at e1; simp [Outcome.map'] at e1
+          · cases hp : Generated.rawLayoutParse d.2 with
+            | hang =>
+              cases hq : rawLayoutDecode d.2 with
+              | hang => exact Outcome.same_refl _
+              | _ => rw [hq] at e2; simp [Outcome.map'] at e2
+            | _ => rw [hp] at e1; simp [Outcome.map'] at e1
+          · cases hp : Generated.rawLayoutParse d.2 with
+            | fault =>
+              cases hq : rawLayoutDecode d.2 with
+              | fault => exact Outcome.same_refl _
+              | _ => rw [hq] at e2; simp [Outcome.map'] at e2
+            | _ => rw [hp] at e1; simp [Outcome.map'] at e1
+        | _ => exact Outcome.same_refl _
+      | _ => exact Outcome.same_refl _
+    | _ => exact Outcome.same_refl _
+  | _ => exact Outcome.same_refl _
+
+
+/-- what `Layout.decode` does with the head: split the properties into the common part and the variants -/
+def layoutRest (h : Nat × Bool × Nat × Nat × List RawProp) : Outcome Layout :=
+  let entryCount := h.1
+  let checked := h.2.1
+  let entrySize := h.2.2.1
+  let variantCount := h.2.2.2.1
+  let raw := h.2.2.2.2
+  let commonRaw := raw.takeWhile (fun p => !isVariantId p)
+  let restRaw := raw.dropWhile (fun p => !isVariantId p)
+  let commonSize := (commonRaw.map (·.size)).sum
+  let common := placeProps 0 commonRaw
+  if variantCount ≠ 0 then
+    if entrySize < commonSize + 1 then .panic "layout/mod.rs: entry_size - common_size underflow"
+    else
+      (splitVariants (entrySize - (commonSize + 1)) (commonSize + 1) restRaw none []).bind fun vs =>
+        if vs.length ≠ variantCount then .err .format
+        else .ok ⟨entryCount, checked, entrySize, common, some commonSize, vs⟩
+  else .ok ⟨entryCount, checked, entrySize, common, none, []⟩
+
+theorem layoutDecode_head (bs : Bytes) : Layout.decode bs = (layoutHead bs).bind layoutRest := by
+  unfold Layout.decode layoutHead layoutRest
+  simp only [bind]
+  cases takeLE bs 4 with
+  | ok a =>
+    simp only [Outcome.bind_ok]
+    cases takeLE a.2 1 with
+    | ok b =>
+      simp only [Outcome.bind_ok]
+      cases takeLE b.2 2 with
+      | ok c =>
+        simp only [Outcome.bind_ok]
+        cases takeLE c.2 1 with
+        | ok d =>
+          simp only [Outcome.bind_ok]
+          cases rawLayoutDecode d.2 with
+          | ok raw =>
+            simp only [Outcome.bind_ok]
+          | _ => rfl
+        | _ => rfl
+      | _ => rfl
+    | _ => rfl
+  | _ => rfl
+
+
 end Jubako
